@@ -19,6 +19,7 @@ type Family struct {
 	ArgSorts []string
 	ResSort  string
 	nver     int
+	RefKind  string // "ptr" when values are references, "slice" when slices, "" otherwise
 }
 
 type Obligation struct {
@@ -38,6 +39,7 @@ type Obligation struct {
 	ValNames []string
 	Text     string // clause text
 	Region   int    // side-exploration region the obligation belongs to (0 = main path)
+	Using    []string
 }
 
 type State struct {
@@ -137,6 +139,8 @@ type FV struct {
 	noAssume bool
 	assumeInstead string
 	scriptRegion []int
+	scriptOrigin []string // name of the contract clause an assumption came from ("" = code semantics)
+	origin       string
 	region       int
 	regionCount  int
 	rootOf       map[string]string // derived ref term -> the object it lies in
@@ -144,6 +148,7 @@ type FV struct {
 	alias        map[string]string // contract parameter name -> implementation parameter name (interface refinement)
 	nameSuffix   string
 	lockKeys     []string
+	refKinds     map[string]string
 }
 
 type LoopInfo struct {
@@ -166,6 +171,7 @@ func (fv *FV) fresh(prefix string) string {
 func (fv *FV) emit(line string) {
 	fv.script = append(fv.script, line)
 	fv.scriptRegion = append(fv.scriptRegion, fv.region)
+	fv.scriptOrigin = append(fv.scriptOrigin, fv.origin)
 }
 
 func (fv *FV) declConst(name, sort string) {
@@ -206,7 +212,51 @@ func (fv *FV) family(key string, argSorts []string, resSort string) *Family {
 	fv.newFam = true
 	// declare version 0 now (late creation, only sound when pre-declared at entry: see run loop)
 	fv.emit(fmt.Sprintf("(declare-fun %s_0 (%s) %s)", f.Short, strings.Join(argSorts, " "), resSort))
+	if k, ok := fv.refKinds[key]; ok {
+		f.RefKind = k
+	}
+	fv.closed(f, f.Short+"_0", fv.wm0)
 	return f
+}
+
+// closed asserts heap closedness for an unconstrained family version: every reference
+// it holds was allocated before the given watermark.
+func (fv *FV) closed(f *Family, sym, wm string) {
+	if f.RefKind == "" || wm == "" {
+		return
+	}
+	var vars, names []string
+	for i, s := range f.ArgSorts {
+		n := fmt.Sprintf("c!%d", i)
+		vars = append(vars, fmt.Sprintf("(%s %s)", n, s))
+		names = append(names, n)
+	}
+	app := sym
+	if len(names) > 0 {
+		app = sx(sym, names...)
+	}
+	var body string
+	switch f.RefKind {
+	case "ptr":
+		body = sx("<", app, wm)
+	case "slice":
+		body = and(sx("slice-ok", app), sx("<", sx("s-base", app), wm), sx("<=", "0", sx("s-base", app)))
+	}
+	if len(names) == 0 {
+		fv.assumeGlobal(body)
+		return
+	}
+	fv.assumeGlobal(fmt.Sprintf("(forall (%s) (! %s :pattern (%s)))", strings.Join(vars, " "), body, app))
+}
+
+func refKindOf(t types.Type) string {
+	switch t.Underlying().(type) {
+	case *types.Pointer, *types.Map, *types.Chan, *types.Signature:
+		return "ptr"
+	case *types.Slice:
+		return "slice"
+	}
+	return ""
 }
 
 func (fv *FV) famSym(st *State, f *Family) string {
@@ -282,11 +332,13 @@ func (fv *FV) havocFamily(st *State, f *Family, cond string) {
 	if len(f.ArgSorts) == 0 {
 		fv.emit(fmt.Sprintf("(declare-fun %s () %s)", nv, f.ResSort))
 		st.heap[f.Key] = nv
+		fv.closed(f, nv, st.wm)
 		return
 	}
 	if cond == "true" {
 		fv.emit(fmt.Sprintf("(declare-fun %s (%s) %s)", nv, strings.Join(f.ArgSorts, " "), f.ResSort))
 		st.heap[f.Key] = nv
+		fv.closed(f, nv, st.wm)
 		return
 	}
 	if cond == "false" {
@@ -294,6 +346,7 @@ func (fv *FV) havocFamily(st *State, f *Family, cond string) {
 	}
 	h := nv + "h"
 	fv.emit(fmt.Sprintf("(declare-fun %s (%s) %s)", h, strings.Join(f.ArgSorts, " "), f.ResSort))
+	fv.closed(f, h, st.wm)
 	ps, names := famParams(f)
 	fv.emit(fmt.Sprintf("(define-fun %s (%s) %s (ite %s %s %s))", nv, ps, f.ResSort, cond, sx(h, names...), sx(old, names...)))
 	st.heap[f.Key] = nv
@@ -311,14 +364,17 @@ func structKey(t types.Type) string {
 func (fv *FV) fieldFam(structT types.Type, idx int) *Family {
 	st := structT.Underlying().(*types.Struct)
 	key := fmt.Sprintf("H|%s|%s", typeKey(structT), st.Field(idx).Name())
+	fv.refKinds[key] = refKindOf(st.Field(idx).Type())
 	return fv.family(key, []string{"Int"}, fv.u.sortOf(st.Field(idx).Type()))
 }
 
 func (fv *FV) cellFam(t types.Type) *Family {
+	fv.refKinds["C|"+typeKey(t)] = refKindOf(t)
 	return fv.family("C|"+typeKey(t), []string{"Int"}, fv.u.sortOf(t))
 }
 
 func (fv *FV) elemFam(elem types.Type) *Family {
+	fv.refKinds["SE|"+typeKey(elem)] = refKindOf(elem)
 	return fv.family("SE|"+typeKey(elem), []string{"Int", "Int"}, fv.u.sortOf(elem))
 }
 
@@ -331,6 +387,7 @@ func (fv *FV) mapFams(t types.Type) (dom, val, card *Family) {
 	m := t.Underlying().(*types.Map)
 	k := mapKey(t)
 	ks := fv.u.sortOf(m.Key())
+	fv.refKinds["MV|"+k] = refKindOf(m.Elem())
 	dom = fv.family("MD|"+k, []string{"Int", ks}, "Bool")
 	val = fv.family("MV|"+k, []string{"Int", ks}, fv.u.sortOf(m.Elem()))
 	card = fv.family("MC|"+k, []string{"Int"}, "Int")
@@ -385,6 +442,7 @@ func (fv *FV) valid(term string, t types.Type, wm string) string {
 		return and(sx("slice-ok", term), sx("<", sx("s-base", term), wm), sx("<=", "0", sx("s-base", term)))
 	case *types.Interface:
 		return and(
+			sx("any-wf", term),
 			implies(sx("(_ is any-ref)", term), sx("<", sx("a-ref", term), wm)),
 			implies(sx("(_ is any-slice)", term), and(sx("slice-ok", sx("a-slice", term)), sx("<", sx("s-base", sx("a-slice", term)), wm), sx("<=", "0", sx("s-base", sx("a-slice", term))))),
 			implies(sx("(_ is any-str)", term), sx(">", sx("a-stag", term), "0")),
@@ -472,10 +530,13 @@ func (fv *FV) obligeSpec(st *State, kind, label string, ctx *SpecCtx, cl *Clause
 	if err == nil {
 		fv.assumeInstead = as
 	}
+	fv.origin = cl.Name
 	o := fv.oblige(st, kind, label, goal, pos, props)
+	fv.origin = ""
 	fv.assumeInstead = ""
 	if o != nil {
 		o.Text = cl.Text
+		o.Using = cl.Using
 	}
 	return o
 }
